@@ -2027,3 +2027,11 @@ Proof.
   - apply Forall_forall. intros x Hx. apply in_map_iff in Hx. destruct Hx as [s [<- _]].
     unfold pos_seg. destruct (slot_get s (st_pool st')) eqn:E; [eapply Hp'; exact E|exact I].
 Qed.
+
+Lemma comprehension_is_map (f : id -> option Z) l :
+  (forall r, all_some f l = Some r -> map f l = map Some r /\ length r = length l) /\
+  (all_some f l = None <-> exists a, In a l /\ f a = None).
+Proof.
+  split; [|apply all_some_none].
+  intros r H. split; [apply all_some_map; exact H|eapply all_some_length; exact H].
+Qed.
